@@ -57,8 +57,8 @@ check(
 check(
     "C09",
     "runtime monitoring: reference-model monitor on the ten number-operand operator forms executed on real Scalars/Arrays/FixedArrays (class, quantity and exact value oracle)",
-    "Held for simple, derived and empty quantities x list/tuple/ndarray x lengths 0..4 x 9 python/numpy scalar kinds and float64/int64 ndarrays x ten forms in both operand orders: result class, quantity (reciprocal for k/x, k//x), values equal to the Python/numpy operation exactly.",
-    "float32 operands are compared to 1e-6 (numpy's promotion rule decides the precision); complex numbers and ndarray operands for Scalars are excluded.",
+    "Held for simple, derived and empty quantities x list/tuple/ndarray x lengths 0..4 x 20 python/numpy scalar kinds (bools, numpy ints incl. unsigned and int8(-128), float32/float64, zeros, ones) and float64/int64/bool/object/0-d/one-element/masked ndarrays x ten forms in both operand orders: result class, quantity (reciprocal for k/x, k//x), values equal to the Python/numpy operation exactly.",
+    "float32 operands are accepted in either precision (numpy's promotion rule decides it); complex numbers are excluded; 0-d arrays count as numbers on either side of a Scalar; a Scalar met by an ndarray of several numbers is observed and listed as a known finding (two outcomes keyed by side), any other outcome alarms; narrow unsigned numpy integers only against float-valued x (numpy itself refuses them next to negative Python ints).",
     "4/C09",
 )
 check(
